@@ -173,4 +173,13 @@ example (hsq : ∀ x : α, sq (x * x) = |x|) (x y : α) :
 example (a b : List α) (h : a.length = b.length) : 0 ≤ euclidSq (exactOps α sq (|·|)) 8 a b :=
   (euclid_metric sq 8 (Or.inl rfl) a b h).2.1
 
+
+/-- the wrappers are re-entrant: results come back through locals of the call, and the wrapper files
+hold no package-level variable (regenerated; seeded change C15-E returns through one shared struct) -/
+theorem wrappers_return_through_locals : Generated.simdWrappersReturnThroughLocals = true := by decide
+
+/-- the cosine distance is the formula at every magnitude: no implementation answers a constant for
+short vectors (regenerated; seeded change C07-E treats `|a|²|b|² < 1e-8` as "zero vector") -/
+theorem cosine_has_no_magnitude_guard : Generated.cosineHasNoMagnitudeGuard = true := by decide
+
 end Anndb.C15
